@@ -3,7 +3,7 @@ import math
 from vlib.tok import f64, s as S, lst
 
 SIS = [1.0, 0.1, 0.001, 1.0 / 3.0, 0.25, 2.0 ** -10, 7.3]
-OFFS = [None, None, 0.0, 0.5, -2.5, 0.3, 3.0]
+OFFS = [None, None, 0.0, 0.5, -2.5, 0.3, 3.0, -0.2, -0.1, -0.7]     # negative, non-dyadic: first + (last - first) != last
 TIME_UNITS = ['s', 'ms', 'us']
 VOLT_UNITS = ['V', 'mV', 'kV']
 
@@ -25,7 +25,7 @@ class Dim:
             # ticks: usually as many as data points, sometimes more, rarely fewer
             r = rng.random()
             ln = n if r < 0.7 else n + rng.randint(1, 3) if r < 0.92 else max(1, n - 1)
-            t = rng.choice([0.0, -3.0, 1.5, 100.0])
+            t = rng.choice([0.0, -3.0, 1.5, 100.0, -0.3, -0.7])
             ticks = []
             for _ in range(ln):
                 ticks.append(t)
